@@ -101,3 +101,10 @@ CHECKS["C08"] = dict(
  text="Two class graphs: Node/Leaf (scalar, list, self-referential optional and class-typed fields; constructor with parameter; methods with parameters and results, a method returning Self, chained calls, a method calling another method) and Pair/Leaf (object-valued constructor parameters, swapping, fresh sub-objects). Alphabet: construct, alias, pass to a function, return from a function, store in / read from a list, call each method on each reference, read and write fields (incl. through a sub-object and sharing a sub-object between two owners), `is` on every pair of references. BFS to depth 3 (quick, ~850 states / 4 700 transitions) / depth 5 (thorough); state de-duplication on 27 (resp. 22) observer expressions exposing every field, every identity relation and the link structure.",
  note="Objects are never printed. == on objects is rejected by the compiler and is not part of the alphabet.",
  design_ref="DESIGN.md section 4, C08")
+
+CHECKS["C11"] = dict(
+ category="model_checking",
+ technique="exhaustive enumeration of import DAGs x per-edge parameters (deviation-bounded), each project one trace of a reference loader model replayed on the real CLI through both execution paths",
+ text="All import DAGs over up to 4 (quick) / 5 (thorough) modules with every module reachable from the entry (1, 1, 3, 21, 315 graphs), per edge: import form {import m, import a,b from m, the latter also importing the mutable variable}, path spelling {m, m.ms, ./m}, placement of the import {before, between, after} the importer's side-effecting statements; all combinations for n <= 2 and <= 2 deviating edges for n = 3 (quick; all combinations for n <= 3 thorough), <= 1 / 2 deviating edges for n = 4, n = 5 thorough; variants with leaf modules in a sub-directory; six negative cases x three spellings (non-exported name through the module / by name, assignment to exported and const members, rebinding the module, unknown member). Each module prints init / mid / done lines, exports a counter with bump/peek closures, a list and a const; importers bump, peek, push and print. Every project is executed by `run` and by `compile`+`execute`; the reference loader model prescribes the exact trace (each init once, in import order, shared state).",
+ note="Modules in a sub-directory are leaves. The `..` path component never parses (ordered choice in the grammar) and is not part of the alphabet.",
+ design_ref="DESIGN.md section 4, C11")
